@@ -34,9 +34,11 @@ for p in props:
 engines = {}
 for c in claimed.values():
     engines.setdefault(c['bin'], []).append(c['id'])
+bins = sorted(engines.keys())
+setup = 'cd /verif/harness && for c in ' + ' '.join(bins) + '; do CARGO_NET_OFFLINE=true CARGO_TARGET_DIR=/verif/.target cargo build --release --offline -p $c || exit 1; done'
 man = {
     'version': 1,
-    'setup_cmd': reg['setup_cmd'],
+    'setup_cmd': setup,
     'hooks': reg['hooks'],
     'engines': [{'name': b, 'path': f'/verif/harness/{b}', 'serves_properties': ids, 'kind_free_text': reg['engine_kinds'].get(b, '')} for b, ids in sorted(engines.items())],
     'checks': checks,
